@@ -337,6 +337,10 @@ def probe_concat(case):
             m = sw[0]
             for o in sw[1:]:
                 m = m.combine(o)
+        elif form == "multi+multi":
+            m = MultiSweep(sw[0]) + MultiSweep(*sw[1:])
+        elif form == "multi.combine(multi)":
+            m = MultiSweep(*sw[:-1]).combine(MultiSweep(sw[-1]))
         else:
             m = sw[0]
             for o in sw[1:]:
@@ -487,6 +491,10 @@ def text_ops(case):
         expr = "a + (b + c)"
     elif form == "combine":
         expr = "a" + "".join(f".combine({n})" for n in names[1:])
+    elif form == "multi+multi":
+        expr = f"MultiSweep(a) + MultiSweep({', '.join(names[1:])})"
+    elif form == "multi.combine(multi)":
+        expr = f"MultiSweep({', '.join(names[:-1])}).combine(MultiSweep({names[-1]}))"
     else:
         expr = " + ".join(names)
     return f"{defs}; r = {expr}; r.list(), len(r)"
@@ -667,7 +675,7 @@ def run_pair(desc, v, fd):
             for ro, right in zip(OPTS, rights):
                 n += 1
                 ops = [left, right]
-                forms_c = [["add"], [], ["MultiSweep"], [], ["combine"], []][n % 6]
+                forms_c = [["add"], ["multi+multi"], ["MultiSweep"], [], ["combine"], ["multi.combine(multi)"]][n % 6]
                 if not _pair_ops(fd, v, ops, ["flat"], forms_c):
                     continue
                 v.count("pairs")
@@ -704,7 +712,7 @@ def run_triple(desc, v, fd):
         ops = [pin(M.instantiate(pool[i][0], pool[i][1], o, M.ALPHABETS[p], rng, desc["seed"]))
                for p, (i, o) in enumerate(zip(idx, opts))]
         form = "flat" if t % 3 else "nested"
-        forms_c = [["add"], ["MultiSweep"], ["add-right"], ["combine"]][t % 4]
+        forms_c = [["add"], ["MultiSweep"], ["add-right"], ["combine"], ["multi+multi"], ["multi.combine(multi)"]][t % 6]
         if not _pair_ops(fd, v, ops, [form], forms_c):
             continue
         v.count("triples")
@@ -831,7 +839,7 @@ def finalize(agg, tier, seed):
         "triples_middle_with_constants[flat]": 1000, "triples_middle_with_derivers[flat]": 1000,
         "triples_middle_with_exclude[flat]": 1000, "triples_middle_with_exclude[nested]": 500,
         "concat_checks[add]": 20000, "concat_checks[MultiSweep]": 20000, "concat_checks[combine]": 20000,
-        "concat_checks[add-right]": 3000,
+        "concat_checks[add-right]": 2000, "concat_checks[multi+multi]": 2000, "concat_checks[multi.combine(multi)]": 2000,
     }
     for k, n in need.items():
         if c.get(k, 0) < n:
